@@ -253,6 +253,10 @@ class CTranslator:
                 return []
             if name in ("import_array", "fflush", "printf", "fprintf", "free"):
                 return []
+            if name == "PyTuple_SetItem":
+                # PyTuple_SetItem(t, i, v)  ->  t[i] = v   (the tuple under construction is a list; reference stealing dropped)
+                a = n0["inner"][1:]
+                return [self.at(ast.Assign([ast.Subscript(self.expr(a[0]), self.expr(a[1]), ast.Store())], self.expr(a[2])), n)]
             if name in ("PyErr_SetString", "PyErr_Format"):
                 exc = self.strip(n0["inner"][1])
                 ename = exc.get("referencedDecl", {}).get("name", "PyExc_RuntimeError").replace("PyExc_", "")
@@ -427,6 +431,10 @@ class CTranslator:
                 return ast.Call(ast.Name("len", ast.Load()), args, [])
             if name in ("PyFloat_FromDouble", "PyLong_FromLong"):
                 return args[0]
+            if name == "PyTuple_New":
+                if not (isinstance(args[0], ast.Constant) and isinstance(args[0].value, int)):
+                    self.err(n, "PyTuple_New with a non-constant size")
+                return ast.List([ast.Constant(None) for _ in range(args[0].value)], ast.Load())
             return ast.Call(ast.Name(name, ast.Load()), args, [])
         if k == "InitListExpr":
             return ast.List([self.expr(c) for c in n.get("inner", [])], ast.Load())
